@@ -898,10 +898,12 @@ void libxmp_process_fx(struct context_data *ctx, struct channel_data *xc, int ch
 	 */
 	case FX_ICE_SPEED:
 		if (fxp) {
-			if (LSN(fxp)) {
+			if (LSN(fxp) && MSN(fxp)) {
 				p->st26_speed = (MSN(fxp) << 8) | LSN(fxp);
 			} else {
-				p->st26_speed = MSN(fxp);
+				/* One nibble only: constant speed, never 0. */
+				int spd = MSN(fxp) | LSN(fxp);
+				p->st26_speed = (spd << 8) | spd;
 			}
 		}
 		break;
